@@ -317,7 +317,9 @@ def _run_case(idx, c):
         b["ckw"].pop("privateKey", None)
         b["ckw"]["settings"] = settings(minVersion=(3, 4), maxVersion=(3, 4), cipherNames=["aes256gcm"])
         state["hit"] = 1
-    if cls == "unadvertised":
+    if cls == "unadvertised" and site == "ccv13":
+        b["ckw"]["settings"].cipherNames = ["aes128gcm"]       # (a SHA-256 transcript hash)
+    elif cls == "unadvertised":
         # the verifier (client) lists SHA-256 only; the prover signs - correctly - with another hash
         b["ckw"]["settings"].rsaSigHashes = ["sha256"]
         b["ckw"]["settings"].ecdsaSigHashes = ["sha256"]
@@ -400,6 +402,17 @@ def _run_case(idx, c):
         elif cls == "declother":
             if decl_other(msg):
                 state["hit"] += 1
+        elif cls == "unadvertised" and site == "ccv13" and hasattr(msg, "signature"):
+            # a correct signature over the right context, with a scheme TLS 1.3 does not allow for CertificateVerify
+            from tlslite.keyexchange import KeyExchange
+            from tlslite.constants import SignatureScheme
+            nm = ["rsa_pkcs1_sha256", "rsa_pkcs1_sha1", "rsa_pkcs1_sha384"][c.get("var", 0) % 3]
+            sch = getattr(SignatureScheme, nm)
+            ctx = KeyExchange.calcVerifyBytes((3, 4), prover._handshake_hash, sch, None, None, None, "sha256", b"client")
+            key_ = prover_kw["privateKey"]
+            msg.signature = key_.sign(ctx, "pkcs1", nm.rsplit("_", 1)[-1], 0)
+            msg.signatureAlgorithm = sch
+            state["hit"] += 1
         elif cls == "replayed" and hasattr(msg, "signature") and captured.get("sig") is not None:
             msg.signature = bytearray(captured["sig"])
             state["hit"] += 1
